@@ -98,6 +98,24 @@ theorem visitor_eq_truth_named_fresh (sub : Nat) (p : Prog) (h : GrammarProg (ds
     (runVisitor (renderNamed sub p)).map forwarding = .ok ((truth p).map (FwdCall.toRec p)) := by
   rw [visitor_eq_truth_named sub p h, truth_named_fresh sub p h1 h2]
 
+/-- a nested definition called like `**kwargs` taints `**kwargs` from that statement on … -/
+theorem truthS_nameStmt_vk (va vk : Nat) (h : vk ≠ va) (tA tK : Bool) :
+    truthS (nameStmt vk va vk) (tA, tK) = ([], (tA, true)) := by
+  simp [nameStmt, h, truthS, taintsNow]
+
+/-- … and one called like `*args` taints `*args` -/
+theorem truthS_nameStmt_va (va vk : Nat) (tA tK : Bool) :
+    truthS (nameStmt va va vk) (tA, tK) = ([], (true, tK)) := by
+  simp [nameStmt, truthS, taintsNow]
+
+/-- hence a forwarding call that follows `def kwargs(): …` does not forward `**kwargs`: whatever the
+    rest of the body, the first ground-truth call of `def kwargs(): body` ; `callee(*args, **kwargs)`
+    uses `*args` only and hides `**kwargs` (the defect D85 was exactly the walker not seeing this) -/
+theorem call_after_def_named_kwargs (va vk : Nat) (h : vk ≠ va) (callee : Tree) (nb : NStmtList) (rest : StmtList) :
+    (truthSL (dsSL vk va vk (.cons (.nested nb) (.cons (.fwd callee 0 [] true true none) rest))) (false, false)).1.head? =
+      some { callee := callee, npos := 0, kws := [], useVa := true, useVk := false, hideA := false, hideK := true } := by
+  simp [dsSL, truthSL, truthS_nameStmt_vk va vk h, truthS, taintsNow, mkFwd]
+
 /-! ### non-vacuity
 
 `exProgN` of `Props/C05Full` with its nested definitions called `sub` (= 50): the hypotheses
